@@ -1230,11 +1230,12 @@ fn check_matching_pattern(
         }
         cx.error_set.report_element_missing_error(*loc, pattern_type.to_description(), index);
         let type_ = Arc::new(Type::Any(Reason::new(*loc, Some(*loc)), false));
-        let (checked, abstract_node) =
-          check_matching_pattern(cx, pattern, wildcard_on_bad_pattern, &type_);
+        // The extra element is still checked for its bindings, but it must not widen the abstract
+        // pattern: the exhaustiveness analysis relies on every pattern of a type having the
+        // declared arity.
+        let (checked, _) = check_matching_pattern(cx, pattern, wildcard_on_bad_pattern, &type_);
         checked_destructured_names
           .push(pattern::TuplePatternElement { pattern: Box::new(checked), type_ });
-        abstract_pattern_nodes.push(abstract_node);
       }
       if fields.len() > checked_destructured_names.len() {
         cx.error_set.report_non_exhaustive_tuple_binding_error(
@@ -1318,8 +1319,9 @@ fn check_matching_pattern(
           field_name.name,
         );
         let type_ = Arc::new(Type::Any(Reason::new(*loc, Some(*loc)), false));
-        let (checked, abstract_node) =
-          check_matching_pattern(cx, pattern, wildcard_on_bad_pattern, &type_);
+        // An unknown field has no position in the abstract pattern. (Its unresolved `field_order`
+        // would otherwise clobber the node of an unrelated declared field.)
+        let (checked, _) = check_matching_pattern(cx, pattern, wildcard_on_bad_pattern, &type_);
         checked_destructured_names.push(pattern::ObjectPatternElement {
           loc: *loc,
           field_order: *field_order,
@@ -1328,7 +1330,6 @@ fn check_matching_pattern(
           shorthand: *shorthand,
           type_: Arc::new(Type::Any(Reason::new(*loc, Some(*loc)), false)),
         });
-        abstract_pattern_nodes[*field_order] = abstract_node;
       }
       if !not_mentioned_fields.is_empty() {
         cx.error_set.report_non_exhaustive_struct_binding_error(
@@ -1411,11 +1412,10 @@ fn check_matching_pattern(
                 index,
               );
               let type_ = Arc::new(Type::Any(Reason::new(*p.loc(), Some(*p.loc())), false));
-              let (checked, abstract_node) =
-                check_matching_pattern(cx, p, wildcard_on_bad_pattern, &type_);
+              // Same as for tuple patterns: extra sub-patterns are not part of the abstract pattern.
+              let (checked, _) = check_matching_pattern(cx, p, wildcard_on_bad_pattern, &type_);
               checked_data_variables
                 .push(pattern::TuplePatternElement { pattern: Box::new(checked), type_ });
-              abstract_pattern_nodes.push(abstract_node);
             }
           }
           (
